@@ -20,7 +20,7 @@ import (
 	"go.uber.org/zap/zapcore"
 )
 
-func TestVerifOpenCardinalityLabelCollision(t *testing.T) {
+func TestVerifCardinalityLabelCollision(t *testing.T) {
 	const input = `{"a":{"b":"x"},"a_b":"y","client_id":"1"}`
 	config := test.NewConfig(&Config{
 		KeyFields: []cfg.FieldSelector{"a.b", "a_b"},
